@@ -496,7 +496,20 @@ impl Simulation {
                 // No actions are scheduled before or at the target time.
                 Ok(None) => {
                     // Update the simulation time.
+                    //
+                    // The scheduler queue must be locked while the time is
+                    // written (see `GlobalScheduler::schedule_from`), and it
+                    // must be checked again: another thread may have scheduled
+                    // an action before the target time since the queue was
+                    // last inspected, in which case that action must be
+                    // processed first.
+                    let scheduler_queue = self.scheduler_queue.lock().unwrap();
+                    if matches!(scheduler_queue.peek(), Some((key, _)) if key.0 <= target_time) {
+                        continue;
+                    }
                     self.time.write(target_time);
+                    drop(scheduler_queue);
+
                     self.clock.synchronize(target_time);
                     return Ok(());
                 }
